@@ -205,6 +205,21 @@ example : spaceOK 1 decLoop [⟨.point, [1, 0], 1⟩, ⟨.ray, [1, 0], 1⟩, ⟨
   decide +kernel
 example : spaceOK 1 decLoop [⟨.point, [1, 0], 1⟩, ⟨.line, [0, 1], 1⟩] = false := by decide +kernel
 
+/-- **the two quasi spaces** of `all_affine_quasi_ranking_functions_MS`: generator-wise checks
+    carry over to every element — `decreasing_mu_space` decreases by at least `1`,
+    `bounded_mu_space` is bounded from below by `0` on every pair of the relation -/
+theorem quasi_spaces_sound (n : Nat) (R : List Con) (gsD gsB : List Gen) (hwf : WF (2*n) R) :
+    (quasiOK n R true gsD = true → ∀ mu ∈ GenSem (n + 1) gsD, ∀ w ∈ sem R, 1 ≤ Spec.decrAt n mu w) ∧
+    (quasiOK n R false gsB = true → ∀ mu ∈ GenSem (n + 1) gsB, ∀ w ∈ sem R, 0 ≤ Spec.valueAt n mu w) :=
+  ⟨fun h mu hmu w hw => quasi_decreasing_sound n R gsD hwf h mu hmu w hw,
+   fun h mu hmu w hw => quasi_bounded_sound n R gsB hwf h mu hmu w hw⟩
+
+-- `x' = x − 1, x ≥ 0`: decreasing `μ_1 ≥ 1` (`μ_0` free); bounded `μ_1 ≥ 0, μ_0 ≥ 0`
+example : quasiOK 1 decLoop true [⟨.point, [1, 0], 1⟩, ⟨.ray, [1, 0], 1⟩, ⟨.line, [0, 1], 1⟩] = true := by
+  decide +kernel
+example : quasiOK 1 decLoop false [⟨.point, [0, 0], 1⟩, ⟨.ray, [1, 0], 1⟩, ⟨.line, [0, 1], 1⟩] = false := by
+  decide +kernel
+
 /-- **`mu_space` of the Podelski–Rybalchenko functions** (an NNC polyhedron): points must pass
     `isRankingGenB`, closure points / rays / lines the homogeneous conditions (non-increasing,
     bounded from below); then every element is bounded from below and decreases by a fixed
